@@ -168,6 +168,13 @@ Spec == Init /\ [][Next]_vars
 
 \* simulation export (tlc -simulate, -workers 1): TLC evaluates this for every candidate successor of the current state, so the *current* state's record is printed (repeatedly, de-duplicated by the reader); level 1 starts a new behaviour
 SimExport == PrintT(<<"SIMREC", TLCGet("level"), ToJson(mon.last), IF TLCGet("level") = 1 THEN ToJson(cfg) ELSE "">>)
+\* edge export (model checking, -workers 1, KeepRec = TRUE, VIEW EdgeView): the last record is kept in mon.last but is not part of a state's identity, so
+\* TLC walks the same graph as with KeepRec = FALSE and every transition it generates is printed with its record: source id, target id, record,
+\* configuration, level of the source.  lib/edgecover.py turns the graph into paths that cover every edge and replays them on the real code.
+EdgeView == <<S, mem, cfg, [mon EXCEPT !.last = <<>>], nbytes, nlines, ntrig, nhx, nfail, ntog, lastRet, nhav>>
+EdgeId(s, m, mo, a, b, c, d, e, f, g, h) == ToJson(<<s, m, [mo EXCEPT !.last = <<>>], a, b, c, d, e, f, g, h>>)
+EdgeExport == PrintT(<<"EDGE", EdgeId(S, mem, mon, nbytes, nlines, ntrig, nhx, nfail, ntog, lastRet, nhav),
+                       EdgeId(S', mem', mon', nbytes', nlines', ntrig', nhx', nfail', ntog', lastRet', nhav'), ToJson(mon'.last), ToJson(cfg), TLCGet("level")>>)
 FairSpec == Spec /\ WF_vars(SvcAct)
 
 (***************************************************************************)
